@@ -37,8 +37,14 @@ SFinish == DoFinish /\ UNCHANGED hist
 SCrash == /\ pc \in {"prepared", "writing"} /\ pc' = "failed"
           /\ hist' = SetLast([LastCall EXCEPT !.fault = [kind |-> IF pc = "prepared" THEN "crash_tables" ELSE "crash_indexes", at |-> 0]])
           /\ UNCHANGED <<file, pre, dest, mode, given, calls, damaged>>
+\* PROCESS DEATH between two steps (the file is closed then): the writer dies right before it opens the file for the
+\* at-th time - 1 = before Prepare, 2 = before Tables, 3 + i = before chunk i is written / before the index step
+SKill == /\ pc \in {"begun", "prepared", "writing"} /\ pc' = "failed"
+         /\ hist' = SetLast([LastCall EXCEPT !.fault = [kind |-> "kill", at |-> IF pc = "begun" THEN 1 ELSE IF pc = "prepared" THEN 2
+                                                                                ELSE 3 + Len(LastCall.chunks)]])
+         /\ UNCHANGED <<file, pre, dest, mode, given, calls, damaged>>
 SReturn == Return /\ UNCHANGED hist
-SimNext == SBegin \/ SPrepare \/ STables \/ SYield \/ SInvalid \/ SRaise \/ SFinish \/ SCrash \/ SReturn
+SimNext == SBegin \/ SPrepare \/ STables \/ SYield \/ SInvalid \/ SRaise \/ SFinish \/ SCrash \/ SKill \/ SReturn
 SimSpec == SimInit /\ [][SimNext]_simvars
 Emit == ~(pc = "idle" /\ calls = MaxCalls) \/ PrintT(ToJson(hist))
 =============================================================================
